@@ -288,6 +288,8 @@ def check_C02(tier, rng, rep):
         jobs = region_jobs(U2, POLY + CURVED + EXTRA, rng, pred=proper)
         jobs += region_jobs(U3, lambda k: [(POLY + CURVED + EXTRA)[k % 9], (POLY + CURVED + EXTRA)[(k + 4) % 9]], rng, pred=proper)
         jobs += region_jobs(U2, ["poly-float", "quad-float"], rng, pred=lambda st, r: st.kind(r) in "SCD", opts={"frame": ("s2", "r2", "m1")})
+    jobs += region_jobs(["U2cross", "U2notch", "U3hole"], lambda k: [["poly-frac", "poly-float", "quad-float"][k % 3]], rng, per_universe=3 if quick else 12,
+                        pred=lambda st, r: st.kind(r) == "S", opts={"mirror": True})   # simple shapes: mirror image of the complement
     res = runner.pool_map(queries.points_case, jobs)
     rep.add_results("points", res)
     # hand-made curved shapes with closed-form membership: chord points, control-box borders
